@@ -28,7 +28,7 @@ func (e *Engine) VerifyFunc(fn *ssa.Function, ct *FuncContract) (obls []*Obligat
 			panic(r)
 		}
 	}()
-	st := &State{pc: True, heaps: map[string]*Term{}, held: map[string]*heldLock{}}
+	st := &State{pc: True, heaps: map[string]*Term{}, held: map[string]*heldLock{}, cells: map[string]Val{}}
 	fr := c.newFrame(fn, nil)
 	fr.top = true
 	c.me = c.declare("me", SRef)
@@ -73,6 +73,8 @@ func (e *Engine) VerifyFunc(fn *ssa.Function, ct *FuncContract) (obls []*Obligat
 		}
 		obls = c.obls
 	}()
+	// this invocation has not written anything yet (thread-local write counters start at zero)
+	c.writesZero = true
 	c.fact(Not(Eq(c.me, Null)))
 	c.fact(Not(Select(c.allocHeap(st), c.me)))
 	for _, g := range c.ghostMaps() {
@@ -178,6 +180,9 @@ func (c *VCtx) frameCheck(fn *ssa.Function, ct *FuncContract, args []Val, entry,
 	sort.Strings(names)
 	alloc0 := c.allocHeap(entry)
 	for _, k := range names {
+		if k == "G:lastcs" || strings.HasPrefix(k, "G:writes:") {
+			continue // thread-local bookkeeping
+		}
 		if k == "G:now" {
 			if allowed[k] == "" && h0IsNot(out.heaps[k], c.heap(entry, k, SInt)) {
 				c.prove("frame."+k, "frame: abstract time does not advance (no synchronisation, no close) unless 'modifies time' is declared", out.pc, False, nil)
